@@ -39,6 +39,7 @@ def gen_workflow(r: Any, name: str, k0: int, async_flag: bool) -> list[dict[str,
     """traces of one workflow: a root with 2-4 child calls, one of them optional / alternative, some nested"""
     kids = [f"{name[:1].upper()}{c}" for c in "BCDE"[: r.choice([2, 3, 4])]]
     alt = r.choice(kids)
+    pad = r.choice(["x", "x", " ", "  y", "\t"])
     spans = []
     n_traces = r.choice([2, 3, 4])
     for t in range(n_traces):
@@ -51,7 +52,8 @@ def gen_workflow(r: Any, name: str, k0: int, async_flag: bool) -> list[dict[str,
         variant = t % 2
         off = 100
         for i, kt in enumerate(kids):
-            typ = kt if not (kt == alt and variant) else kt + "x"
+            # the alternative differs by a letter, or only by edge / inner white space (values must survive verbatim)
+            typ = kt if not (kt == alt and variant) else kt + pad
             cid = f"{jid}.{i}"
             # async: overlapping windows for the first two children only
             cs = st + off
@@ -151,6 +153,16 @@ def run(ctx: Ctx) -> None:
         reps = pvlib.run_requests(reqs)
         for (i, n), rp in zip(meta, reps):
             cases[i].setdefault("r2b", {})[n] = rp
+        # the saved files read back by the project's own loader
+        reqs = []
+        for c in cases:
+            fl = []
+            for n in c["names"]:
+                folder = os.path.join(c["paths"]["dir"], "out2", n)
+                fl += [os.path.join(folder, fn) for fn in sorted(os.listdir(folder))] if os.path.isdir(folder) else []
+            reqs.append({"op": "load_pv_files", "files": fl, "mapping": c["mapping"], "hash_seed": 0, "timeout": 60})
+        for c, rp in zip(cases, pvlib.run_requests(reqs)):
+            c["readback"] = rp
         # collect
         lean_reqs, lmeta = [], []
         for i, c in enumerate(cases):
@@ -178,6 +190,17 @@ def run(ctx: Ctx) -> None:
             key = lambda j: j[0]["jobId"] if j else ""  # noqa: E731
             if {n: sorted(v, key=key) for n, v in mem.items()} != {n: sorted(v, key=key) for n, v in files.items()}:
                 c["bad"] = "the saved PV files do not hold the events, links and field values of the in-memory stream"
+                continue
+            rb = c["readback"]
+            if "error" in rb:
+                c["bad"] = f"the saved PV files cannot be read back by pv_job_file_to_event_sequence: {rb['error'][:200]}"
+                continue
+            rbj = sorted((sorted(({k: e.get(k, []) for k in FIELDS} for e in j), key=lambda e: e["eventId"])
+                          for j in rb["jobs"]), key=key)
+            memj = sorted((j for js in mem.values() for j in js), key=key)
+            if rbj != [[{k: e.get(k, []) for k in FIELDS} for e in j] for j in memj]:
+                c["bad"] = ("the saved PV files, read back with the same mapping by the project's loader, do not give the "
+                            "events, links and field values of the in-memory stream")
                 continue
             c["raw_objs"] = raw_objs
             c["mem_events"] = [e for js in mem.values() for j in js for e in j]
